@@ -176,6 +176,26 @@ def gen_labels(pid, tier, rng):
     return progs
 
 
+def gen_label_rewrite(pid, tier, rng):
+    """The same DLISFile written as several units of a storage set: the label attributes are changed between the writes."""
+    progs = []
+    for i in range(4 if tier == 'quick' else 24):
+        p = Prog(f'{pid}-relabel-{i}', {'kind': 'relabel'})
+        simple_file(p, rng, vrl=[64, 128, 256, 8192][i % 4], nchan=2, rows=3)
+        p.steps[0].update({'seq': 1, 'setid': 'SET-ONE'})
+        p.write(1, fname='unit1.dlis')
+        what = ['sequence_number', 'set_identifier', 'max_record_length', 'all'][i % 4]
+        if what in ('sequence_number', 'all'):
+            p.set_sul(1, 'sequence_number', 2 + i)
+        if what in ('set_identifier', 'all'):
+            p.set_sul(1, 'set_identifier', 'SET-TWO-' + rand_name(rng, 5))
+        if what in ('max_record_length', 'all'):
+            p.set_sul(1, 'max_record_length', [128, 64, 1024, 512][i % 4])
+        p.write(1, fname='unit2.dlis')
+        progs.append(p.build())
+    return progs
+
+
 def gen_invalid_vrl(pid, tier, rng):
     """Record lengths the writer must not accept (the trace spec only requires: no malformed file)."""
     progs = []
@@ -204,7 +224,7 @@ def gen_small_files(pid, tier, rng, n=None):
 
 def gen_C01(tier, seed):
     rng = rng_for('C01', tier, seed)
-    return (gen_framing_grid('C01', tier, rng) + gen_labels('C01', tier, rng) + gen_invalid_vrl('C01', tier, rng)
+    return (gen_framing_grid('C01', tier, rng) + gen_labels('C01', tier, rng) + gen_label_rewrite('C01', tier, rng) + gen_invalid_vrl('C01', tier, rng)
             + gen_small_files('C01', tier, rng))
 
 
@@ -256,6 +276,22 @@ def gen_C15(tier, seed):
             nf = p.add(lf, 'no_format', 'N')
             p.nofmt(lf, nf, bytes(rng.getrandbits(8) for _ in range(plen)))
             p.write(1, out_chunk=max(vrl, 1024))
+            progs.append(p.build())
+    # many logical files / sets with few objects and few rows: the number of records written exceeds the number of objects
+    for nlf in ([1, 2, 3, 5, 8] if tier == 'quick' else list(range(1, 13))):
+        for rows in (1, 2, 3):
+            p = Prog(f'C15-manylf-{nlf}-{rows}', {'kind': 'manylf', 'nlf': nlf, 'rows': rows})
+            p.file(1, vrl=rng.choice([64, 8192]))
+            for k in range(nlf):
+                lf = p.lf(1, fh_id=f'LF-{k}', fh_seq=k + 1)
+                sn = f'SET-{k}'
+                p.origin(lf, name='O', fsn=k + 1, set_name=sn)
+                c = p.channel(lf, 'A', data=np.arange(rows, dtype='float64') + k, set_name=sn)
+                p.frame(lf, 'F', [c], set_name=sn)
+                if k % 2:
+                    p.add(lf, 'zone', 'Z', set_name=sn)
+                    p.add(lf, 'comment', 'C', set_name=sn, text=L(S('x')))
+            p.write(1)
             progs.append(p.build())
     return progs
 
@@ -323,6 +359,29 @@ def gen_C10(tier, seed):
             st = p.write(1, in_chunk=ic, out_chunk=oc, watch=True, prior=[None, 3000, 10][j % 3], fname=f'o{j}.dlis')
             if j % 3 == 2:
                 st['opts']['out_chunk_float'] = True
+        progs.append(p.build())
+    for i in range(8 if tier == 'quick' else 60):
+        rows = rng.choice([7, 10, 13])
+        route = ['struct', 'dict', 'h5', 'struct'][i % 4]
+        p = Prog(f'C10-routechunks-{i}', {'kind': 'routechunks', 'route': route, 'rows': rows})
+        p.file(1, vrl=rng.choice([64, 256]))
+        lf = p.lf(1, fh_id='CHUNKS')
+        p.origin(lf, name='O')
+        chans, arrs = [], {}
+        for c in range(rng.randint(1, 3)):
+            ch = p.channel(lf, f'CH{c}')
+            chans.append(ch)
+            arrs[ch] = p.array(rand_array(rng, rng.choice(['float64', 'int16', 'float32']), rows, rng.choice([None, 2])))
+        p.frame(lf, 'FR', chans)
+        frm = rng.choice([0, 1, 3])
+        to = rng.choice([None, rows - 1])
+        for j, ic in enumerate([None, 1, 2, 3, 4, rows, rows + 1, 100]):
+            opts = {'in_chunk': ic}
+            if frm:
+                opts['from'] = frm
+            if to is not None:
+                opts['to'] = to
+            p.write(1, route=route, data_arrays=arrs, fname=f'o{j}.dlis', **opts)
         progs.append(p.build())
     progs += gen_multirec('C10', tier, rng)
     return progs
